@@ -336,6 +336,18 @@ pub fn dump_getters(ctx: &mut Ctx, g: &Guarded, h: &Multiboot2Header) {
 
 pub fn run(ctx: &mut Ctx, dom: &str, a: &[Arg]) {
     match dom {
+        "hdrmis" => {
+            let g = Guarded::new(a[1].b(), a[0].u(), ctx.place_end);
+            let r = guard(|| unsafe { Multiboot2Header::load(g.ptr.cast::<Multiboot2BasicHeader>()) });
+            ctx.ln(
+                "load",
+                match r {
+                    Err(()) => "PANIC".to_string(),
+                    Ok(Err(e)) => load_err(e),
+                    Ok(Ok(_)) => "VAL ".to_string(),
+                },
+            );
+        }
         "hdrnull" => {
             let r = guard(|| unsafe { Multiboot2Header::load(core::ptr::null()) });
             ctx.ln(
